@@ -45,8 +45,9 @@ CLAIM = dict(
     note=('Trusted: Lean kernel (axioms propext, Classical.choice, Quot.sound only), the hand-written model of the '
           'solver and the harness (generators, independent oracle, hand-written unit table). Completeness '
           '(a solvable system is never rejected) is checked by the oracle on generated programs and systems, not '
-          'proved. Known finding reproduced on every run: Substitution::extend unwraps a substitution error '
-          '(`fn f(x) = x^2 && true` panics).'),
+          'proved. Two defects found by this check were repaired (Substitution::extend unwrapped a substitution '
+          'error: `fn f(x) = x^2 && true`; a derived unit could be defined by a Bool/String expression) and stay '
+          'in the corpus.'),
     technique=('Lean 4 proof (solution-set preservation by induction over the solver loop) + differential '
                'correspondence of the compiled model against the real solver + independent dimensional-analysis '
                'oracle on generated programs and mutants'),
